@@ -409,19 +409,24 @@ class Run:
         n_out = len(new_up) - (len(old_up) - (ub - lb)) if lb <= ub else 0
         outs = new_up[lb:lb + max(0, n_out)]
         self.check_meta(outs)
-        is_gc = (up == 15 and len(inputs) > 1)
         m = self.model.cmd("C %d %d %s %s %s | %s" % (lo, up, hx(fk), hx(lk), ",".join(str(self.fid(n)) for n in inputs),
                                                     ";".join(file_str(self.fid(n), self.meta[n]["size"], self.cache[n]) for n in outs)))
         bits = m.split(" ")[1:]
+        is_gc = bits[5] == "1"          # the model classified the step as a garbage collection
         kind = "move" if len(inputs) == 1 else ("gc" if is_gc else "compact")
         self.n_steps[kind] += 1
         self.last_compaction = {"lo": lo, "up": up, "inputs": inputs, "outs": outs, "bits": bits, "kind": kind}
         if bits[0] != "1":
             self.classify_invalid(lo, up, inputs, kind, bits[3])
-        if bits[1] != "1" and not is_gc:
+        if is_gc:
+            if bits[4] != "1":
+                self.problem("invalid", what="garbage collection dropped something the admissible set does not allow (not a subsequence of the merge, or a key's newest version dropped while older ones stay)", inputs=inputs, outs=outs)
+        elif bits[1] != "1":
             self.problem("corr", what="compaction outputs are not the sorted merge of the inputs", inputs=inputs, outs=outs)
         if bits[2] != "1":
             self.problem("invalid", what="levels not well-formed after compaction", c=out)
+        elif bits[0] == "1" and bits[6] != "1" and (is_gc and bits[4] == "1" or (not is_gc) and bits[1] == "1"):
+            self.problem("corr", what="step not accepted by the model although its parts are", bits=bits)
         self.levels = levels
         self.compare_version(levels, "compaction")
         return True
